@@ -150,9 +150,14 @@ pub fn run(opts: &Opts) -> i32 {
   let mut made = 0;
   while made < n {
     let p = gen_program(&mut rng, &g);
-    let v = render(&p, &Spelling { vary: false, seed: 0 });
-    let l = match std::panic::catch_unwind(|| crate::convert_mon::real_convert(&v)) { Ok(Ok(l)) => l, _ => { out.count("programs_not_converting"); made += 1; continue; } };
+    // one program in three is written in a varied spelling and then damaged by 1-3 structure-aware mutations (the
+    // hostile inputs of C14): whatever the real loader still accepts and converts is a layout "the converter can
+    // produce" and has to survive the save and the reload like any other
+    let mutated = rng.chance(1, 3);
+    let v = if mutated { crate::load_mon::mutate(&render(&p, &Spelling { vary: true, seed: rng.next_u64() }), &mut rng) } else { render(&p, &Spelling { vary: false, seed: 0 }) };
+    let l = match std::panic::catch_unwind(|| crate::convert_mon::real_convert(&v)) { Ok(Ok(l)) => l, _ => { out.count(if mutated { "mutated_programs_not_converting" } else { "programs_not_converting" }); made += 1; continue; } };
     made += 1;
+    if mutated { out.count("mutated_programs_converting"); }
     out.nontrivial(hash_str(&format!("{:?}", l.mappings)));
     for m in &l.mappings {
       if m.to.is_empty() { out.count("mappings_with_empty_output"); }
